@@ -359,7 +359,10 @@ class Gen:
     def fill_use(self, file, ln, scope, assembled, ctx, special):
         rng = self.rng
         target, forms = None, None
-        if isinstance(special, tuple):
+        if isinstance(special, tuple) and special[0] == "own_super":
+            target = special[1]
+            forms = [("super", ["super", target.name])]
+        elif isinstance(special, tuple):
             target = special[1]
             forms = [("plain", [target.name])]
         elif special is True or not assembled:
@@ -416,6 +419,36 @@ class Gen:
         root = Scope("file", None, fname)
         self.p.roots[fname] = root
         self.gen_block(fname, root, 1, 2, True, None)
+        # a label block that uses the file's own top-level names from inside (also from a nested block and through
+        # `super`): when the block is imported by name, these lookups must still go through THIS file's scope
+        consts = [d for d in root.defs.values() if d.kind in ("const", "var", "label")]
+        if consts and self.rng.random() < 0.6:
+            name = self.pick_name(root)
+            ln = self.emit(fname, "%s: {" % name)
+            bd = self.add_def(name, "scope", root, fname, ln, 0)
+            sub = Scope("label", root, fname, bd)
+            bd.block = sub
+            ln2 = self.emit(fname, "nop")
+            bd.tagline = (fname, ln2)
+            inner = self.p.fresh_name(self.rng, "i")
+            ln3 = self.emit(fname, "%s: nop" % inner)
+            di = self.add_def(inner, "label", sub, fname, ln3, 0)
+            di.tagline = (fname, ln3)
+            for where in ("here", "nested", "super"):
+                t = self.rng.choice(consts)
+                if where == "nested":
+                    self.emit(fname, "{")
+                    sc = Scope("anon", sub, fname)
+                    self.emit(fname, "nop")
+                else:
+                    sc = sub
+                ln4 = self.emit(fname, None)
+                self.pending_uses.append((fname, ln4, sc, True, None, ("own" if where != "super" else "own_super", t)))
+                if where == "nested":
+                    self.emit(fname, "}")
+            self.emit(fname, "}")
+            root.own_block = bd
+            self.p.features.add("imported_block_uses_own_file")
         # a use of a top-level name on the last line: main.asm gets a use of the same name at the same line and column
         tops = [d for d in root.defs.values() if d.kind in ("label", "const", "var", "scope")]
         root.twin = None
@@ -479,6 +512,9 @@ class Gen:
             top = [d for d in froot.defs.values()]
             if style in ("specific", "specific_as") and top:
                 picks = rng.sample(top, min(len(top), rng.randrange(1, 3)))
+                ob = getattr(froot, "own_block", None)
+                if ob is not None and ob not in picks:
+                    picks.append(ob)
                 args, ln = [], len(p.lines.get(main, []))
                 col = 8
                 for d in picks:
@@ -778,11 +814,7 @@ def resolve_chain(p, u, d):
                     break
                 if cur.kind == "label":
                     truths.append(cur.label)
-                elif cur.kind == "file" and cur.file != "main.asm":
-                    # the top level of an imported file: what is around it depends on how it was imported (an exported
-                    # label block hangs below the importing scope or the `as` namespace): not decided lexically
-                    truths.append("undecided")
-                else:
+                else:   # anonymous block or the top level of a file (also of an imported one: 92c8ba5): no definition site
                     truths.append("none")
             else:
                 dd = cur.defs.get(seg)
